@@ -202,7 +202,7 @@ def cases(draw, tier='quick'):
         return draw(BP.bpchspecs())
     spec = draw(C.camxspecs(formats=CAMX_FORMATS, max_n=3, max_nz=2,
                             max_steps=3, max_spec=2,
-                            step_choices=(1, 1, 1, 2, 3),
+                            step_choices=(1, 1, 1, 1, 2, 3, 24, 24, 48),
                             weights={'uamiv': 2}))
     spec['ny'] = min(spec['ny'], 2)
     if spec['nsteps'] == 1 and draw(st.integers(0, 2)) > 0:
